@@ -326,3 +326,129 @@ Qed.
 Theorem retry_budget_is_per_execution now ext key b l k c script pos :
   get_rstate (fresh_world now ext key b l k c script) pos = {| rs_failed := 0; rs_exceeded := false |}.
 Proof. reflexivity. Qed.
+
+(* ------------------------------------------------------------------ *)
+(* 5. C07 — timeout (timed level)                                       *)
+
+(* the Timeout's result is either the inner result (re-flagged by its own failure test: only
+   ErrExceeded is a failure for the Timeout) or, when its timer won, ErrExceeded — nothing else *)
+Theorem timeout_layer_outcome pos limit (inner : layer) c w :
+  let s := length (w_scopes w) in
+  let res := timeout_layer pos limit inner c w in
+  (sc_fired (get_scope (snd res) s) = true /\ fst res = with_failure (failure_result ETimeout))
+  \/ (sc_fired (get_scope (snd res) s) = false /\
+      exists r, pr_out (fst res) = pr_out r /\
+        (fst res = with_failure r \/ fst res = with_done r true true)).
+Proof.
+  cbv zeta. unfold timeout_layer.
+  match goal with |- context [inner ?c' ?w2] => destruct (inner c' w2) as [r w3] end.
+  cbn [fst snd].
+  set (s := length (w_scopes w)).
+  assert (Hf : forall l n, sc_fired (nth n (upd n (fun sc => {| sc_deadline := None; sc_fired := sc_fired sc; sc_done := sc_done sc;
+                 sc_copy := sc_copy sc; sc_pos := sc_pos sc |}) l) dflt_scope) = sc_fired (nth n l dflt_scope)).
+  { clear. intros l. induction l as [|x l IH]; intros [|n]; cbn; auto. }
+  assert (Hg : forall q e, sc_fired (get_scope (set_scopes w3 (upd s (fun sc => {| sc_deadline := None; sc_fired := sc_fired sc; sc_done := sc_done sc;
+                 sc_copy := sc_copy sc; sc_pos := sc_pos sc |}) (w_scopes w3)) q e) s) = sc_fired (get_scope w3 s)).
+  { intros q e. unfold get_scope. cbn [w_scopes set_scopes]. apply Hf. }
+  rewrite Hg.
+  destruct (sc_fired (get_scope w3 s)) eqn:E.
+  - left. split; [reflexivity|]. cbn. reflexivity.
+  - right. split; [reflexivity|]. exists r.
+    destruct (match pr_err r with Some e => errors_is e ETimeout | None => false end); split; auto.
+Qed.
+
+(* a timer is selected only when it is pending with exactly that deadline *)
+Lemma nt_go_spec l : forall i acc t s,
+  nt_go i l acc = Some (t, Some s) ->
+  acc = Some (t, Some s) \/ ((i <= s)%nat /\ sc_deadline (nth (s - i) l dflt_scope) = Some t).
+Proof.
+  induction l as [|sc l IH]; intros i acc t s H; cbn [nt_go] in H; [left; exact H|].
+  apply IH in H. destruct H as [H|[Hi H]].
+  - destruct (sc_deadline sc) as [d|] eqn:Ed; [|left; exact H].
+    destruct acc as [[t1 o1]|].
+    + destruct (d <? t1); [|left; exact H]. injection H as -> ->. right. split; [lia|]. rewrite Nat.sub_diag. exact Ed.
+    + injection H as -> ->. right. split; [lia|]. rewrite Nat.sub_diag. exact Ed.
+  - right. split; [lia|]. replace (s - i)%nat with (S (s - S i)) by lia. exact H.
+Qed.
+
+Theorem next_timer_deadline w t s : next_timer w = Some (t, Some s) -> sc_deadline (get_scope w s) = Some t.
+Proof.
+  unfold next_timer, get_scope. intros H. apply nt_go_spec in H. destruct H as [H|[_ H]].
+  - destruct (w_ext w) as [[? ?]|]; discriminate.
+  - rewrite Nat.sub_0_r in H. exact H.
+Qed.
+
+(* ErrExceeded is never produced early: the callback of scope s runs on a clock that has reached its deadline *)
+Theorem timeout_fires_not_early w t s : next_timer w = Some (t, Some s) ->
+  sc_deadline (get_scope w s) = Some t /\ t <= w_now (set_now w (Z.max (w_now w) t)).
+Proof. intros H. split; [apply next_timer_deadline; exact H|cbn; lia]. Qed.
+
+(* the limit applies afresh to each application of the Timeout: the world in which the inner
+   layer starts has a new scope whose deadline is the entry instant plus the limit *)
+Definition timeout_entry_world (pos : nat) (limit : Z) (c : nat) (w : world) : world :=
+  let cp := get_copy w c in
+  let w1 := set_scopes w (w_scopes w ++ [ {| sc_deadline := Some (w_now w + limit); sc_fired := false; sc_done := None;
+                                              sc_copy := length (w_copies w); sc_pos := pos |} ]) (w_seq w) (w_ext w) in
+  set_copies w1 (w_copies w1 ++ [ {| cp_chain := length (w_scopes w) :: cp_chain cp; cp_last := cp_last cp; cp_start := cp_start cp |} ]).
+
+Theorem timeout_deadline_is_entry_plus_limit pos limit (inner : layer) c w :
+  sc_deadline (get_scope (timeout_entry_world pos limit c w) (length (w_scopes w))) = Some (w_now w + limit)
+  /\ snd (timeout_layer pos limit inner c w) =
+      let w3 := snd (inner (length (w_copies w)) (timeout_entry_world pos limit c w)) in
+      set_scopes w3 (upd (length (w_scopes w)) (fun sc => {| sc_deadline := None; sc_fired := sc_fired sc; sc_done := sc_done sc;
+                                              sc_copy := sc_copy sc; sc_pos := sc_pos sc |}) (w_scopes w3)) (w_seq w3) (w_ext w3).
+Proof.
+  split.
+  - unfold timeout_entry_world, get_scope. cbn [w_scopes set_copies set_scopes]. rewrite app_nth2 by lia.
+    rewrite Nat.sub_diag. reflexivity.
+  - unfold timeout_layer, timeout_entry_world. cbn [w_copies set_scopes]. destruct (inner _ _). reflexivity.
+Qed.
+
+(* ------------------------------------------------------------------ *)
+(* 6. C08 — cancellation                                                *)
+
+(* what a cancelled execution reports: the result stored by the canceller (a Timeout stores
+   ErrExceeded), else the context's own error *)
+Theorem cancel_result_is_cause w c cr : is_canceled w c = Some cr ->
+  match w_cell w with
+  | Some r => cr = r
+  | None => pr_err cr = copy_err w c /\ pr_done cr = true
+  end.
+Proof.
+  unfold is_canceled. destruct (copy_err w c) as [e|]; [|discriminate]. intros H. injection H as <-.
+  destruct (w_cell w); [reflexivity|]. cbn. auto.
+Qed.
+
+(* the retry loop returns the cancellation result as soon as the inner layer comes back cancelled:
+   no PostExecute, no delay, no further attempt *)
+Theorem retry_returns_cancel_result cfg pos (inner : layer) fuel c w cr :
+  is_canceled (snd (inner c w)) c = Some cr ->
+  retry_loop (S fuel) cfg pos inner c w = (cr, snd (inner c w), 1%nat).
+Proof. cbn [retry_loop]. destruct (inner c w) as [r w1]. cbn [snd]. intros ->. reflexivity. Qed.
+
+(* every interruptible wait (retry delay, rate-limiter wait, bulkhead wait, cooperative function)
+   ends at once when its execution is already cancelled: remaining delays are not waited out *)
+Theorem wait_interrupted_immediately w d c e : copy_err w c = Some e -> wait w d (Some c) = (true, w).
+Proof. intros H. unfold wait. cbn [Nat.add advance]. rewrite H. reflexivity. Qed.
+
+(* a fallback inside the cancelled scope is never applied (C10's theorem restated for C08) *)
+Theorem no_fallback_after_cancel pos cfg (inner : layer) c w cr :
+  let r := fst (inner c w) in let w1 := snd (inner c w) in
+  let w2 := ev_with_result w1 c KPolFailure pos (with_failure r) in
+  is_failure (fb_fpol cfg) (pr_out r) = true -> is_canceled w2 c = Some cr ->
+  fallback_layer pos cfg inner c w = (cr, w2).
+Proof. exact (fallback_not_applied_when_cancelled pos cfg inner c w cr). Qed.
+
+(* a rate-limiter wait that is interrupted by the cancellation fails with the execution's last error
+   (the cause) and does not run what it wraps *)
+Theorem limiter_wait_interrupted pos inst mw (inner inner' : layer) c w :
+  let '(cfg, base, s) := nth inst (w_limiters w) (Smooth 1, 0, SSmooth 0) in
+  let '(wt, s') := lim_acquire cfg s (w_now w - base) 1 mw in
+  let w1 := set_insts w (w_breakers w) (upd inst (fun p => (fst p, s')) (w_limiters w)) (w_bulkheads w) (w_caches w) in
+  wt <> -1 -> fst (wait w1 wt (Some c)) = true ->
+  limiter_layer pos inst mw inner c w = limiter_layer pos inst mw inner' c w.
+Proof.
+  unfold limiter_layer. destruct (nth inst (w_limiters w) _) as [[cfg base] s].
+  destruct (lim_acquire cfg s (w_now w - base) 1 mw) as [wt s']. intros Hne.
+  destruct (wt =? -1) eqn:E; [lia|]. destruct (wait _ wt (Some c)) as [i w2]. cbn [fst]. intros ->. reflexivity.
+Qed.
